@@ -51,6 +51,17 @@ CLAIMED.update({
    "SSA symbolic execution + SMT over a protobuf model, native replay"),
 })
 
+CLAIMED.update({
+ "C01": ("DESIGN.md 5/C01",
+   "One arbitrary Set on an arbitrary Value and one arbitrary Get/Add/Update/Delete on an arbitrary Collection (0..2 items, symbolic ids and bodies) with option subsets (update mask x {reset, expected value, expected check ok/fail, before/after interceptor, write time}; create-if-absent, expect-absent, allow-missing, generated ids) against an in-harness reference; failed calls change nothing; List sorted; generated ids non-empty/unused/reported once/usable. A single step from an arbitrary state gives sequences by induction.",
+   "Trusted: symgo + protobuf model + real masks/fmutils code, z3, ordinal ids, arbitrary rng bytes and clock. Bound quick: option subsets of size <=2 plus all six, 5 update masks, bodies with 2 implicit scalars + 1 optional; thorough: all 64 subsets, 3 items.",
+   "SSA symbolic execution + SMT vs reference model, native replay"),
+ "C04": ("DESIGN.md 5/C04",
+   "Real Pull goroutines (bus, listener, forwarder) executed in the symbolic concurrency runtime with a consuming goroutine and one writer under every interleaving: seeds first/sorted/flagged/last-seed, exactly one event per successful write in write order with id, kind, old and new value and write time; none for failed writes; updates-only has no seed; no goroutine outlives the cancelled subscription.",
+   "Trusted: symgo concurrency runtime with sleep-set reduction (DRF between sync ops), protobuf model, z3. Bound: Value 2 writes, Collection 0..2 seed items + 1 write; equivalence suppression and read masks on the stream not yet encoded; event time for writes without WithWriteTime not asserted.",
+   "SSA symbolic execution with symbolic scheduler + SMT, native replay"),
+})
+
 NOT_YET = {}
 
 NA = {
